@@ -71,6 +71,11 @@ impl Database {
     }
 
     #[cfg(feature = "verif")]
+    pub fn verif_writer_queue_len(&self, thread: usize) -> usize {
+        self.writer_pool.verif_queue_len(thread)
+    }
+
+    #[cfg(feature = "verif")]
     pub fn verif_num_writer_threads(&self) -> usize {
         self.writer_pool.verif_num_threads()
     }
